@@ -9,9 +9,12 @@ mod term;
 mod util;
 
 fn main() {
-    util::quiet_panics();
     let args: Vec<String> = std::env::args().skip(1).collect();
     let mode = args.first().map(|s| s.as_str()).unwrap_or("");
+    // panics of the library under test are data; panics of the generators are bugs of the machinery
+    if !mode.starts_with("fuzz") && mode != "tables" {
+        util::quiet_panics();
+    }
     let rest = &args[args.len().min(1)..];
     let code = match mode {
         "expr" => expr::main(rest),
